@@ -139,6 +139,13 @@ CLAIMED["C17"] = dict(
     note="Trusted base as for the lattice checks. Curvilinear grids (spherical, polar, cylindrical) are only adjoint up to the intrinsic accuracy of their transforms (spherical 4e-7..1e-4, polar up to 1.5e-3), which does not vanish under refinement; the acceptance band there (2e-5..1.2e-3 and 2e-2) is calibrated on the pinned tree and only catches O(1) errors such as a wrong sign, index or partial derivative. Only profiles that are flat at the outer boundary are used on those grids.",
 )
 
+CLAIMED["C18"] = dict(
+    category="exploration",
+    technique="exhaustive enumeration of all solver chains up to depth 3 over a 6-letter alphabet x tolerances x initial profiles x specifications x systems; stationarity recomputed, observables compared across all chains",
+    text="Every sequence of up to three solver stages over {picard, picard-log, anderson, anderson-log, newton, newton-log} (6 + 36 + 216 chains) is run with two final tolerances on planar interfaces and slit / cylindrical / spherical pores from tanh, pDGT and previous-solution starts; whenever solve reports success the Euler-Lagrange residual is recomputed, positivity and the solver log are checked, the bulk state must be unchanged for the default specification, the path-independent observables (surface tension, adsorbed amount, grand potential) must agree across all successful chains, and specified particle numbers must be reproduced.",
+    design_ref="§5 C18",
+)
+
 NOT_YET = "check not built yet (work in progress; see DESIGN.md §9 build order) - not a claim that the technique cannot apply"
 
 ALL = ["C%02d" % i for i in range(1, 21)]
